@@ -122,6 +122,7 @@ type FactEngine struct {
 	fn       *FuncInfo
 	mentions map[string][]string // atom -> access paths it depends on
 	okvars   map[types.Object]string
+	linAtoms map[string]linear // lt0 atoms: the form T + k (sign-normalised) they compare with 0
 	rangeVals map[types.Object]ast.Expr
 	aliases  map[types.Object]ast.Expr
 	boolDefs map[types.Object]ast.Expr
@@ -130,7 +131,7 @@ type FactEngine struct {
 }
 
 func NewFactEngine(p *Prog, fn *FuncInfo) *FactEngine {
-	e := &FactEngine{p: p, fn: fn, mentions: map[string][]string{}, okvars: map[types.Object]string{}, rangeVals: map[types.Object]ast.Expr{}, aliases: map[types.Object]ast.Expr{}, boolDefs: map[types.Object]ast.Expr{}}
+	e := &FactEngine{p: p, fn: fn, mentions: map[string][]string{}, linAtoms: map[string]linear{}, okvars: map[types.Object]string{}, rangeVals: map[types.Object]ast.Expr{}, aliases: map[types.Object]ast.Expr{}, boolDefs: map[types.Object]ast.Expr{}}
 	e.prescan()
 	return e
 }
@@ -587,7 +588,21 @@ func (e *FactEngine) cmpFormula(l linear, op token.Token, paths []string) *Formu
 	}
 	t, k, flip := linKey(l)
 	A := func(kk int64) *Formula {
-		return e.atomOf(fmt.Sprintf("lt0(%s|%+d)", t, kk), append([]string(nil), paths...))
+		name := fmt.Sprintf("lt0(%s|%+d)", t, kk)
+		if _, ok := e.linAtoms[name]; !ok {
+			nt := map[string]int64{}
+			for n, v := range l.terms {
+				if v != 0 {
+					if flip {
+						nt[n] = -v
+					} else {
+						nt[n] = v
+					}
+				}
+			}
+			e.linAtoms[name] = linear{terms: nt, k: kk, ok: true}
+		}
+		return e.atomOf(name, append([]string(nil), paths...))
 	}
 	if flip { // L = -(T+k): compare M = T+k with the mirrored operator
 		switch op {
@@ -910,6 +925,87 @@ func (e *FactEngine) newUniverse(req *Formula, body *ast.BlockStmt, target ...as
 	if body != nil {
 		var conds []*Formula
 		sc := e.fnScope()
+		// backward (weakest-precondition style) closure: walk the assignments that precede the
+		// target in reverse source order and add the atoms each requirement atom is mapped to;
+		// atoms closest to the target are added first, the cap cuts the far ones
+		substClosure := func() {
+			var assigns []*ast.AssignStmt
+			ast.Inspect(body, func(n ast.Node) bool {
+				if as, ok := n.(*ast.AssignStmt); ok && len(as.Lhs) == len(as.Rhs) {
+					assigns = append(assigns, as)
+				}
+				return true
+			})
+			var tpos token.Pos
+			if len(target) == 1 && target[0] != nil {
+				tpos = target[0].Pos()
+			}
+			sort.SliceStable(assigns, func(a, b int) bool {
+				pa, pb := assigns[a].Pos(), assigns[b].Pos()
+				// statements before the target first, nearest first; then the ones after it (loops)
+				ba, bb := pa < tpos, pb < tpos
+				if ba != bb {
+					return ba
+				}
+				if ba {
+					return pa > pb
+				}
+				return pa > pb
+			})
+			for round := 0; round < 2; round++ {
+				for _, as := range assigns {
+					for i := range as.Lhs {
+						if !isIntegerType(sc.info.TypeOf(as.Lhs[i])) {
+							continue
+						}
+						pth := strings.TrimPrefix(e.canon(as.Lhs[i], sc, nil), "&")
+						rhss := []ast.Expr{as.Rhs[i]}
+						for _, name := range []string{"max", "min"} {
+							if call, ok := isBuiltinCall(sc.info, as.Rhs[i], name); ok && len(call.Args) == 2 {
+								rhss = []ast.Expr{call.Args[0], call.Args[1]}
+								am := map[string]bool{}
+								e.boolForm(&ast.BinaryExpr{X: call.Args[0], Op: token.GEQ, Y: call.Args[1]}, sc).atoms(am)
+								mentionsP := false
+								for a := range m {
+									if la, ok := e.linAtoms[a]; ok && la.terms[pth] != 0 {
+										mentionsP = true
+									}
+								}
+								if mentionsP && len(m)+len(am) <= 17 {
+									for x := range am {
+										m[x] = true
+									}
+								}
+							}
+						}
+						for _, rx := range rhss {
+						var ps []string
+						r := e.linearOf(rx, sc, &ps)
+						if !r.ok {
+							continue
+						}
+						var cur []string
+						for a := range m {
+							cur = append(cur, a)
+						}
+						sort.Strings(cur)
+						for _, a := range cur {
+							if f := e.substLinear(a, pth, r); f != nil {
+								am := map[string]bool{}
+								f.atoms(am)
+								if len(m)+len(am) <= 17 {
+									for x := range am {
+										m[x] = true
+									}
+								}
+							}
+						}
+						}
+					}
+				}
+			}
+		}
+		substClosure()
 		// conditions that enclose the target are always relevant
 		if len(target) == 1 && target[0] != nil {
 			for _, nd := range pathTo(body, target[0]) {
@@ -950,6 +1046,33 @@ func (e *FactEngine) newUniverse(req *Formula, body *ast.BlockStmt, target ...as
 		for a := range m {
 			if pth, _, ok := splitEqConst(a); ok {
 				reqPaths[pth] = true
+			}
+		}
+		substClosure()
+		// linear conditions that share a term with a tracked linear atom (needed for transitivity)
+		for round := 0; round < 2; round++ {
+			terms := map[string]bool{}
+			for a := range m {
+				if la, ok := e.linAtoms[a]; ok {
+					for t, v := range la.terms {
+						if v != 0 {
+							terms[t] = true
+						}
+					}
+				}
+			}
+			for _, cf := range conds {
+				am := map[string]bool{}
+				cf.atoms(am)
+				for a := range am {
+					if la, ok := e.linAtoms[a]; ok && !m[a] && len(m) < 14 {
+						for t, v := range la.terms {
+							if v != 0 && terms[t] {
+								m[a] = true
+							}
+						}
+					}
+				}
 			}
 		}
 		reqLin := map[string]bool{}
@@ -1023,6 +1146,92 @@ func (e *FactEngine) newUniverse(req *Formula, body *ast.BlockStmt, target ...as
 			}
 		}
 	}
+	// one Fourier–Motzkin step over the linear literals: lit1 ∧ lit2 ⇒ (their sum), matched against
+	// the universe's own atoms (gives a ≤ b ∧ b < 0 ⇒ a < 0 etc.)
+	type lit struct {
+		atom  int
+		neg   bool
+		terms map[string]int64
+		k     int64
+	}
+	var lits []lit
+	for i, a := range as {
+		la, ok := e.linAtoms[a]
+		if !ok {
+			continue
+		}
+		lits = append(lits, lit{i, false, la.terms, la.k})
+		nt := map[string]int64{}
+		for t, v := range la.terms {
+			nt[t] = -v
+		}
+		lits = append(lits, lit{i, true, nt, -la.k - 1}) // ¬(T+k<0) ⇔ −T−k−1 < 0
+	}
+	type triple struct {
+		a, b   lit
+		c      int  // -1: a ∧ b is contradictory
+		cValue bool // forbidden value of atom c given a ∧ b
+	}
+	var triples []triple
+	if len(lits) <= 40 {
+		for x := 0; x < len(lits); x++ {
+			for y := x + 1; y < len(lits); y++ {
+				if lits[x].atom == lits[y].atom {
+					continue
+				}
+				sum := map[string]int64{}
+				for t, v := range lits[x].terms {
+					sum[t] += v
+				}
+				for t, v := range lits[y].terms {
+					sum[t] += v
+				}
+				ks := lits[x].k + lits[y].k + 1
+				nz := 0
+				for _, v := range sum {
+					if v != 0 {
+						nz++
+					}
+				}
+				if nz == 0 {
+					if ks >= 0 {
+						triples = append(triples, triple{lits[x], lits[y], -1, false})
+					}
+					continue
+				}
+				for ci, ca := range as {
+					lc, ok := e.linAtoms[ca]
+					if !ok || ci == lits[x].atom || ci == lits[y].atom {
+						continue
+					}
+					same, opp := true, true
+					cnt := 0
+					for t, v := range lc.terms {
+						if v == 0 {
+							continue
+						}
+						cnt++
+						if sum[t] != v {
+							same = false
+						}
+						if sum[t] != -v {
+							opp = false
+						}
+					}
+					if cnt != nz {
+						continue
+					}
+					if same && lc.k <= ks {
+						triples = append(triples, triple{lits[x], lits[y], ci, false}) // sum ⇒ c, so ¬c is forbidden
+					}
+					if opp && lc.k >= -ks-1 {
+						triples = append(triples, triple{lits[x], lits[y], ci, true}) // sum ⇒ ¬c
+					}
+				}
+			}
+		}
+	}
+	litTrue := func(v int, l lit) bool { return (v&(1<<uint(l.atom)) != 0) != l.neg }
 	for v := 0; v < n; v++ {
 		ok := true
 		for _, p := range excl {
@@ -1035,6 +1244,16 @@ func (e *FactEngine) newUniverse(req *Formula, body *ast.BlockStmt, target ...as
 			if v&(1<<uint(p.i)) != 0 && v&(1<<uint(p.j)) == 0 {
 				ok = false
 				break
+			}
+		}
+		if ok {
+			for _, t := range triples {
+				if litTrue(v, t.a) && litTrue(v, t.b) {
+					if t.c < 0 || (v&(1<<uint(t.c)) != 0) == t.cValue {
+						ok = false
+						break
+					}
+				}
 			}
 		}
 		if ok {
@@ -1106,6 +1325,19 @@ func (u *universe) forget(s vset, i int) vset {
 			if w := v ^ bit; u.valid.has(w) {
 				r.set(w)
 			}
+		}
+	}
+	return r
+}
+
+// forgetRaw is forget without the validity filter (used while several atoms are being rewritten).
+func (u *universe) forgetRaw(s vset, i int) vset {
+	r := s.clone()
+	n := len(u.atoms)
+	bit := 1 << uint(i)
+	for v := 0; v < 1<<uint(n); v++ {
+		if s.has(v) {
+			r.set(v ^ bit)
 		}
 	}
 	return r
@@ -1449,34 +1681,217 @@ func (p *Prog) pureMethod(fi *FuncInfo, depth int) bool {
 	return pure
 }
 
+// substLinear returns, for atom a (T+k<0) and the assignment p := r, the formula
+// that a's new value equals in the pre-assignment state (nil when p does not occur).
+func (e *FactEngine) substLinear(a string, p string, r linear) *Formula {
+	la, ok := e.linAtoms[a]
+	if !ok {
+		return nil
+	}
+	c := la.terms[p]
+	if c == 0 {
+		return nil
+	}
+	nl := linear{terms: map[string]int64{}, k: la.k, ok: true}
+	for n, v := range la.terms {
+		if n != p {
+			nl.terms[n] += v
+		}
+	}
+	for n, v := range r.terms {
+		nl.terms[n] += c * v
+	}
+	nl.k += c * r.k
+	return e.cmpFormula(nl, token.LSS, e.mentions[a])
+}
+
 func (w *walker) assign(lhs ast.Expr, rhs ast.Expr, s vset) vset {
 	lhs = ast.Unparen(lhs)
 	if id, ok := lhs.(*ast.Ident); ok && id.Name == "_" {
 		return s
 	}
+	// p = max(a, b) / min(a, b): p = a where a ≥ b (resp. ≤), p = b otherwise
+	if rhs != nil {
+		for _, name := range []string{"max", "min"} {
+			if call, ok := isBuiltinCall(w.sc.info, rhs, name); ok && len(call.Args) == 2 && isIntegerType(w.sc.info.TypeOf(lhs)) {
+				op := token.GEQ
+				if name == "min" {
+					op = token.LEQ
+				}
+				cond := w.e.boolForm(&ast.BinaryExpr{X: call.Args[0], Op: op, Y: call.Args[1]}, w.sc)
+				tt, ff := w.u.may(cond)
+				return w.assign(lhs, call.Args[0], s.and(tt)).or(w.assign(lhs, call.Args[1], s.and(ff)))
+			}
+		}
+	}
 	p := strings.TrimPrefix(w.e.canon(lhs, w.sc, nil), "&")
+	// integer copy / constant assignment: linear atoms over p take the value the
+	// substituted comparison had before the assignment
+	if rhs != nil && isIntegerType(w.sc.info.TypeOf(lhs)) {
+		var ps []string
+		r := w.e.linearOf(rhs, w.sc, &ps)
+		if r.ok {
+			type upd struct {
+				i int
+				f *Formula // nil: not computable in this universe → forgotten
+			}
+			var upds []upd
+			for i, a := range w.u.atoms {
+				if f := w.e.substLinear(a, p, r); f != nil {
+					am := map[string]bool{}
+					f.atoms(am)
+					for x := range am {
+						if _, ok := w.u.idx[x]; !ok {
+							f = nil
+							break
+						}
+					}
+					upds = append(upds, upd{i, f})
+				}
+			}
+			if len(upds) > 0 {
+				ns := newVset(len(w.u.atoms))
+				for v := 0; v < 1<<uint(len(w.u.atoms)); v++ {
+					if !s.has(v) {
+						continue
+					}
+					nv := v
+					for _, u := range upds {
+						if u.f == nil {
+							continue
+						}
+						if evalFormula(u.f, w.u, v) {
+							nv |= 1 << uint(u.i)
+						} else {
+							nv &^= 1 << uint(u.i)
+						}
+					}
+					ns.set(nv)
+				}
+				for _, u := range upds {
+					if u.f == nil {
+						ns = w.u.forgetRaw(ns, u.i)
+					}
+				}
+				ns = ns.and(w.u.valid)
+				// other (non-linear) atoms that mention p are forgotten
+				for i, a := range w.u.atoms {
+					if _, isLin := w.e.linAtoms[a]; isLin {
+						continue
+					}
+					for _, m := range w.e.mentions[a] {
+						if prefixOf(p, m) || prefixOf(m, p) {
+							ns = w.u.forget(ns, i)
+							break
+						}
+					}
+				}
+				return ns
+			}
+		}
+	}
 	s = w.kill(s, p)
 	if rhs == nil {
 		return s
 	}
-	// a fresh empty composite literal: every field holds its zero value
+	// a fresh struct literal: every field not named in it holds its zero value
 	{
 		r := ast.Unparen(rhs)
 		if ue, ok := r.(*ast.UnaryExpr); ok && ue.Op == token.AND {
 			r = ast.Unparen(ue.X)
 		}
-		if cl, ok := r.(*ast.CompositeLit); ok && len(cl.Elts) == 0 {
+		if cl, ok := r.(*ast.CompositeLit); ok {
 			if _, isStruct := w.sc.info.TypeOf(cl).Underlying().(*types.Struct); isStruct {
-				for i, a := range w.u.atoms {
-					if path, cst, ok := splitEqConst(a); ok && path != p && prefixOf(p, path) && strings.Count(path[len(p):], ".") == 1 {
-						if cst == `#""` || cst == "#0" || cst == "#false" {
-							s = w.u.assume(s, i, true)
-						} else {
+				keyed := map[string]bool{}
+				positional := false
+				for _, el := range cl.Elts {
+					if kv, ok := el.(*ast.KeyValueExpr); ok {
+						keyed[exprString(kv.Key)] = true
+					} else {
+						positional = true
+					}
+				}
+				oneField := func(path string) (string, bool) {
+					if path == p || !prefixOf(p, path) {
+						return "", false
+					}
+					rest := path[len(p)+1:]
+					if strings.ContainsAny(rest, ".[(") {
+						return "", false
+					}
+					return rest, !keyed[rest]
+				}
+				if !positional {
+					for i, a := range w.u.atoms {
+						if path, cst, ok := splitEqConst(a); ok {
+							if _, z := oneField(path); z {
+								s = w.u.assume(s, i, cst == `#""` || cst == "#0" || cst == "#false")
+							}
+							continue
+						}
+						if strings.HasPrefix(a, "eq(") && strings.HasSuffix(a, ",nil)") {
+							if _, z := oneField(a[3 : len(a)-5]); z {
+								s = w.u.assume(s, i, true)
+							}
+							continue
+						}
+						if _, z := oneField(a); z { // bare boolean field
 							s = w.u.assume(s, i, false)
+							continue
 						}
 					}
-					if strings.HasPrefix(a, "eq("+p+".") && strings.HasSuffix(a, ",nil)") && strings.Count(a[len("eq("+p):], ".") == 1 {
-						s = w.u.assume(s, i, true)
+					// integer fields: substitute 0 into linear atoms
+					zero := linear{terms: map[string]int64{}, ok: true}
+					for i, a := range w.u.atoms {
+						la, isLin := w.e.linAtoms[a]
+						if !isLin {
+							continue
+						}
+						f := mkAtom(a)
+						changed := false
+						cur := a
+						_ = cur
+						for t := range la.terms {
+							if _, z := oneField(t); z {
+								changed = true
+							}
+						}
+						if !changed {
+							continue
+						}
+						// substitute every zero field
+						nl := linear{terms: map[string]int64{}, k: la.k, ok: true}
+						for t, v := range la.terms {
+							if _, z := oneField(t); !z {
+								nl.terms[t] += v
+							}
+						}
+						_ = zero
+						f = w.e.cmpFormula(nl, token.LSS, w.e.mentions[a])
+						am := map[string]bool{}
+						f.atoms(am)
+						ok := true
+						for x := range am {
+							if _, in := w.u.idx[x]; !in {
+								ok = false
+							}
+						}
+						if ok {
+							ns := newVset(len(w.u.atoms))
+							for v := 0; v < 1<<uint(len(w.u.atoms)); v++ {
+								if !s.has(v) {
+									continue
+								}
+								nv := v &^ (1 << uint(i))
+								if evalFormula(f, w.u, v) {
+									nv |= 1 << uint(i)
+								}
+								if w.u.valid.has(nv) {
+									ns.set(nv)
+								}
+							}
+							s = ns
+						}
 					}
 				}
 			}
